@@ -680,3 +680,61 @@ theorem insertEach_spec (m : Mode) (obj : Obj J) (cs : List (Obj J)) (w : Nat)
         | tail _ hx => exact kc x hx
 
 end Reader
+
+namespace Reader
+
+/-! ### Stack need of the XML reader -/
+
+/-- three frames per level of element nesting, at most -/
+theorem stack_le_depth :
+    (∀ (x : Xml) (kind : Kind), stackTag kind x ≤ 3 * Xml.depth x) ∧
+    (∀ (ks : List Xml) (kind : Kind), stackKids kind ks ≤ 3 * Xml.depthList ks) := by
+  have key : ∀ x : Xml, ∀ kind : Kind, stackTag kind x ≤ 3 * Xml.depth x := by
+    intro x
+    induction x using Xml.rec
+      (motive_2 := fun ks => ∀ kind : Kind, stackKids kind ks ≤ 3 * Xml.depthList ks) with
+    | elem t a tx ks ih =>
+      intro kind
+      have h := ih kind
+      simp only [stackTag, Xml.depth, framesPerObject]
+      omega
+    | other k =>
+      intro kind
+      simp [stackTag]
+    | nil =>
+      rename_i kind
+      simp [stackKids]
+    | cons x rest ihx ihr =>
+      rename_i kind
+      have hr := ihr kind
+      cases x with
+      | other k =>
+        simp only [stackKids, Xml.depthList, Xml.depth]
+        omega
+      | elem t0 attrs text kids =>
+        simp only [stackKids, Xml.depthList]
+        split
+        · rename_i k' _ _ _
+          have hx := ihx k'
+          omega
+        · omega
+  refine ⟨key, ?_⟩
+  intro ks
+  induction ks with
+  | nil => intro kind; simp [stackKids]
+  | cons x rest ihr =>
+    intro kind
+    have hr := ihr kind
+    cases x with
+    | other k =>
+      simp only [stackKids, Xml.depthList, Xml.depth]
+      omega
+    | elem t0 attrs text kids =>
+      simp only [stackKids, Xml.depthList]
+      split
+      · rename_i k' _ _ _
+        have hx := key (.elem t0 attrs text kids) k'
+        omega
+      · omega
+
+end Reader
